@@ -17,7 +17,7 @@ func init() { Registry["C13"] = c13 }
 
 // characters string literals are built from (everything the lexer accepts
 // inside quotes except the quote itself)
-var c13Chars = []rune{'a', ' ', '(', ')', ';', '\\', '\n', '\t', '\'', '[', ',', 'é', '☃', '\x01'}
+var c13Chars = []rune{'a', ' ', '(', ')', ';', '\\', '\n', '\t', '\'', '[', ',', 'é', '☃', '\x01', '%', '$', '{', '`', '#', '|'}
 
 func c13Strings(maxLen int) []string {
 	out := []string{""}
@@ -68,6 +68,9 @@ func c13Round(r *rep.Run, h *drive.Harness, c *c13case, o drive.Opt, stats *[3]i
 	if p, site := drive.Fence(func() { text = eval.Dump(e) }); p != nil {
 		r.Violate("dump-panic", site, sprintf("Dump panics: %v", p), d(nil))
 		return
+	}
+	if p, site := drive.Fence(func() { eval.DumpTable(e, false); eval.DumpTable(e, true) }); p != nil {
+		r.Violate("dumptable-panic", site, sprintf("DumpTable panics: %v", p), d(nil))
 	}
 	if !strings.HasPrefix(text, "(") {
 		return // folded to a bare scalar constant: excluded by the statement
@@ -161,6 +164,8 @@ func c13(r *rep.Run) {
 			binds := [][]interface{}{{I, []int64{J}}, {J, []int64{}}, {int64(7), []int64{I, J}}}
 			for _, src := range []string{
 				fmt.Sprintf("(= n %d)", I),
+				fmt.Sprintf("(in n (010 -007 00 %d))", I),
+				fmt.Sprintf("(= (+ n 0100) %d)", J),
 				fmt.Sprintf("(in n (%d %d))", I, J),
 				fmt.Sprintf("(overlap li (%d %d %d))", J, I, J),
 				fmt.Sprintf("(if (< n %d) %d %d)", I, J, I),
